@@ -56,3 +56,8 @@ pub(crate) fn custom_tap_hold_except(
         },
     )
 }
+
+// Verification hook (add-only, compiled only by `cargo kani`): contract harnesses live in /verif.
+#[cfg(kani)]
+#[path = "/verif/kani/harness/custom_tap_hold.rs"]
+mod verif_kani;
